@@ -37,8 +37,8 @@ _cov = cover.Coverage()
 
 def setup(ctx):
     import gaddlemaps._transform_molecule as tm
-    _cov.watch(tm.move_mol_atom)
-    _cov.watch(tm.find_atom_random_displ)
+    _cov.watch_attr(tm, 'move_mol_atom')
+    _cov.watch_attr(tm, 'find_atom_random_displ')
     _cov.start()
     monitors.install_move_contract(ctx)
 
